@@ -233,7 +233,7 @@ def load(config, repo=None, quiet=False):
     th = tree_hash(repo)
     d = os.path.join(CACHE, config, th)
     os.makedirs(os.path.join(CACHE, config), exist_ok=True)
-    lock = open(os.path.join(CACHE, config, ".lock"), "w")
+    lock = open(os.path.join(CACHE, config, th + ".lock"), "w")
     fcntl.flock(lock, fcntl.LOCK_EX)
     info = {"config": config, "tree_hash": th, "cargo_args": CONFIGS[config][1], "cached": True}
     try:
@@ -257,8 +257,11 @@ def load(config, repo=None, quiet=False):
             olds = [o for o in glob.glob(os.path.join(CACHE, config, "*"))
                     if os.path.isdir(o) and o != d and not o.endswith(".tmp")]
             olds.sort(key=os.path.getmtime, reverse=True)
-            for old in olds[int(os.environ.get("ZCHECK_KEEP", "3")):]:
-                shutil.rmtree(old, ignore_errors=True)
+            now = time.time()
+            for old in olds[int(os.environ.get("ZCHECK_KEEP", "8")):]:
+                # never evict a recent entry: another process may be reading it
+                if now - os.path.getmtime(old) > 3 * 3600:
+                    shutil.rmtree(old, ignore_errors=True)
     finally:
         fcntl.flock(lock, fcntl.LOCK_UN)
         lock.close()
